@@ -89,6 +89,9 @@ inductive Buf
   | error (e : Err)                       -- NewBufferFromError
   | chunks (d : Digest) (s : List Item)   -- NewCASBufferFromChunkReader over a scripted ChunkReader
   | reader (d : Digest) (s : List Item)   -- NewCASBufferFromReader over a scripted io.ReadCloser
+  /-- one half of `NewCASBufferFromChunkReader(d, r).CloneStream()` (a `casClonedBuffer`); the other
+  half is discarded by its owner, so this half sees the shared stream alone -/
+  | clone (d : Digest) (s : List Item)
 
 /-- One answer of the scripted `ErrorHandler.OnError`. -/
 inductive Resp
@@ -115,6 +118,7 @@ def content : Buf → Bytes
   | .error _ => []
   | .chunks _ s => (scan s).1.flatten
   | .reader _ s => (scan s).1.flatten
+  | .clone _ s => (scan s).1.flatten
 
 def piecesF (m : Nat) : Nat → Bytes → List Bytes
   | 0, _ => []
@@ -136,6 +140,9 @@ def dropChunks : List Bytes → Nat → Option (List Bytes)
     if off + 1 < c.length then some (c.drop (off+1) :: cs)
     else dropChunks cs (off + 1 - c.length)
 
+/-- `defaultChunkSizeBytes`: the chunk size a cloned buffer's other consumers ask for. -/
+def cloneChunk : Nat := 65536
+
 /-- `Buffer.toUnvalidatedChunkReader(off, m)`: all chunks the reader returns, then its terminal. -/
 def openChunks (b : Buf) (off m : Nat) : List Bytes × Term :=
   match b with
@@ -152,6 +159,12 @@ def openChunks (b : Buf) (off m : Nat) : List Bytes × Term :=
     -- discardFromReader, then readerBackedChunkReader (io.ReadFull into m-byte chunks)
     if off > (scan s).1.flatten.length then ([], (scan s).2)
     else (pieces m ((scan s).1.flatten.drop off), (scan s).2)
+  | .clone _ s =>
+    -- casClonedBuffer: offsetChunkReader(multiplexed(base.toUnvalidatedChunkReader(0, min m 64K)), off):
+    -- the shared stream is normalised first, the offset is skipped afterwards
+    match dropChunks ((scan s).1.flatMap (pieces (min m cloneChunk))) off with
+    | none => ([], (scan s).2)
+    | some cs => (cs, (scan s).2)
 
 /-! ## `errorHandlingChunkReader` -/
 
@@ -263,6 +276,12 @@ def openReader (b : Buf) (off : Nat) : RSrc :=
     match dropChunks (scan s).1 off with
     | none => .short [] (scan s).2
     | some cs => .short cs (scan s).2
+  | .clone _ s =>
+    -- casClonedBuffer.toUnvalidatedReader(off) = chunkReaderBackedReader(toUnvalidatedChunkReader(off, 64K)):
+    -- the reader skips `off` bytes of the shared stream
+    match dropChunks ((scan s).1.flatMap (pieces cloneChunk)) off with
+    | none => .short [] (scan s).2
+    | some cs => .fill cs.flatten (scan s).2
 
 /-- `errorHandlingReader`. -/
 structure EHR where
@@ -372,6 +391,7 @@ def baseSlice (max : Nat) : Buf → Except Err Bytes
   | .error e => .error e
   | .chunks d s => if d.size > max then .error (.tooLarge d.size max) else casFull d s
   | .reader d s => if d.size > max then .error (.tooLarge d.size max) else casFull d s
+  | .clone d s => if d.size > max then .error (.tooLarge d.size max) else casFull d s
 
 /-- `Buffer.ReadAt(p, off)`, `len(p) = n`, of an unwrapped buffer: the bytes and whether `io.EOF`
 accompanies them. -/
@@ -381,6 +401,10 @@ def baseReadAt (off n : Nat) : Buf → Except Err (Bytes × Bool)
     else .ok ((data.drop off).take n, decide ((data.drop off).length < n))
   | .error e => .error e
   | .chunks d s =>
+    match casFull d s with
+    | .error e => .error e
+    | .ok data => .ok ((data.drop off).take n, decide (0 < n ∧ data.length < off + n))
+  | .clone d s =>
     match casFull d s with
     | .error e => .error e
     | .ok data => .ok ((data.drop off).take n, decide (0 < n ∧ data.length < off + n))
@@ -414,6 +438,7 @@ def withEH : Buf → List Resp → WBuf × List Err × Nat
   | .bytes data, _ => (.plain (.bytes data), [], 1)
   | .chunks d s, _ => (.eh (.chunks d s) d, [], 0)
   | .reader d s, _ => (.eh (.reader d s) d, [], 0)
+  | .clone d s, _ => (.eh (.clone d s) d, [], 0)
   | .error e, [] => (.plain (.error .exhausted), [e], 1)
   | .error e, .fail k :: _ => (.plain (.error (.tag k)), [e], 1)
   | .error e, .repl b :: h => ((withEH b h).1, e :: (withEH b h).2.1, (withEH b h).2.2)
